@@ -373,6 +373,25 @@ impl Session {
         }
     }
 
+    /// `n` tapes drawn from the library's generator under the session seed (for callers that need a
+    /// fixed list of generated cases up front, e.g. to hand the same list to child processes)
+    pub fn sample_tapes(&self, n: usize, max_len: usize, stream: u64) -> Vec<Vec<u32>> {
+        use proptest::strategy::{Strategy, ValueTree};
+        let mut seed_bytes = [0u8; 32];
+        let mut s = mix(self.seed ^ mix(stream.wrapping_mul(0x1000) + 0x5a5a));
+        for chunk in seed_bytes.chunks_mut(8) {
+            s = mix(s);
+            chunk.copy_from_slice(&s.to_le_bytes());
+        }
+        let mut runner = TestRunner::new_with_rng(Config { failure_persistence: None, ..Config::default() }, TestRng::from_seed(RngAlgorithm::ChaCha, &seed_bytes));
+        let strategy = vec(any::<u32>(), 0..max_len);
+        (0..n).filter_map(|_| strategy.new_tree(&mut runner).ok().map(|t| t.current())).collect()
+    }
+
+    pub fn merge_stats(&self, st: Stats) {
+        self.stats.lock().unwrap().merge(st);
+    }
+
     /// enumeration-driven exploration: every case of `cases` is checked (parallel).
     pub fn run_enum(&self, prop: &dyn Property, cases: Vec<Json>) {
         let next = std::sync::atomic::AtomicUsize::new(0);
